@@ -989,9 +989,14 @@ def check_construct(ctx, chk):
         kws = {k: cn.show(v) for k, v in calls[0].data.get("kwargs", ())}
         bound = dict(zip(callee.params[1:], args))
         bound.update(kws)
-        okb = all(bound.get(p_) == p_ for p_ in callee.params[1:4])
-        chk.ob("C15.construct", "generate passes r_sensitive, r_user, random_goal to the parameters "
-               "of the same names", okb, str(bound), fi.module.path)
+        # roles are positional in the helper (C15.sensitive: its 1st parameter is the value of the
+        # sensitive-subnet host, its 2nd the user host's value, its 3rd the random-goal switch);
+        # generate's own parameter names are the public ones
+        roles = ["r_sensitive", "r_user", "random_goal"]
+        okb = len(callee.params) >= 4 and all(
+            bound.get(p_) == r_ for p_, r_ in zip(callee.params[1:4], roles))
+        chk.ob("C15.construct", "generate passes r_sensitive, r_user, random_goal to the helper's "
+               "parameters in that role order", okb, str(bound), fi.module.path)
 
 
 # ------------------------------------------------------------------------------ core topology
